@@ -33,6 +33,9 @@ pub enum Act {
   /// bottom-up build with the given changed resources
   #[serde(rename = "bu")]
   Bu { changed: Vec<i64> },
+  /// external change of a file resource while the session is open (between two API calls)
+  #[serde(rename = "set")]
+  Set { r: i64, v: i64 },
 }
 
 #[derive(Serialize, Deserialize, Clone, Debug)]
